@@ -1,6 +1,35 @@
 import Driver.Util
-open Lean
+import Driver.Run
+import DoitModel.Model.RunC09
+open Lean DoitModel.Run
 namespace Driver.P09
-/-- handler for requests with `"model": "c09"` (property-specific monitors / model queries of C09; stub until built) -/
-def handle (_ : Json) : Json := Driver.err "model not implemented"
+/-! Handler for `{"model":"c09", …}`: the C09 monitor (`Model/RunC09.lean`) evaluated on what the harness observed of
+one run of the implementation.  Request = the fields of a `{"model":"run"}` request (task table, oracle, flags, trace,
+exit) plus `errCyclic`, `errWait`, `hung`.  Answer: the four clauses, the tasks found on a cycle of the closure graph,
+the closure, and what the model itself does on this input under its default schedule (halt class, exit code). -/
+
+def haltStr : Halt → String
+  | .none => "none" | .cyclic => "cyclic" | .crash => "crash"
+
+def handle (j : Json) : Json :=
+  let inp := Driver.Run.parseInput j
+  let n := jnat j "n"
+  let tr := (jarr j "trace").filterMap Driver.Run.parseEv
+  let o : C09Obs := { exit := jnat j "exit", errCyclic := jbool j "errCyclic", errWait := jbool j "errWait",
+                      hung := jbool j "hung" }
+  let cyc := cycleTasks inp n tr
+  let s := Driver.Run.simulate inp (init inp) 100000
+  Json.mkObj [
+    ("monitor", Json.mkObj [
+      ("C09_terminates", Json.bool (monC09Terminates o)),
+      ("C09_cycle_diagnosed", Json.bool (monC09Diagnosed inp n tr o)),
+      ("C09_no_cycle_task_run", Json.bool (monC09NoCycleTaskRun inp n tr)),
+      ("C09_no_false_cycle", Json.bool (monC09NoFalseCycle inp n tr o))]),
+    ("all", Json.bool (monC09 inp n tr o)),
+    ("cycle", ofNats cyc),
+    ("closure", ofNats (closureOf inp n tr)),
+    ("cutShort", Json.bool (cutShort inp tr)),
+    ("model", Json.mkObj [("halted", Json.bool (s.rpc = .halted)), ("halt", Json.str (haltStr s.halt)),
+                          ("exit", toJson (exitCode s))])]
+
 end Driver.P09
